@@ -330,8 +330,64 @@ func stalledScenario(a, b string, buf uint) func() {
 	}
 }
 
+// errThenOkScenario: an error belongs to the call whose request caused it. In call A node 2's handler fails;
+// then the same goroutine issues call B, in which every handler succeeds. B must see node 2's reply to its own
+// request - no error, in particular not the one of call A.
+func errThenOkScenario(a, b string) func() {
+	return func() {
+		w := world.New(world.Opts{N: 2, Window: 4})
+		if w.Cfg == nil {
+			return
+		}
+		failTok := -1
+		w.Handle = func(h *world.HCtx) world.Reply {
+			if h.Tok == failTok && h.Node == 2 {
+				return world.Reply{Err: handlerError(2)}
+			}
+			if h.Send != nil {
+				h.Send(0, 0)
+			}
+			return world.Reply{}
+		}
+		mk := func(kind string) *world.Call {
+			c := w.NewCall(kind)
+			if kind == "GRPCCall" {
+				c.Node = 2
+			}
+			c.Verdict = func(inv *world.QFInv) { inv.Level = len(inv.Keys); inv.Quorum = len(inv.Keys) >= 2 }
+			return c
+		}
+		ca, cb := mk(a), mk(b)
+		failTok = ca.Tok
+		w.Start(ca)
+		mc.Quiesce() // the outcome of A is in
+		w.Start(cb)
+		mc.Quiesce()
+		name := fmt.Sprintf("error-then-success/%s>%s", a, b)
+		checkGenuine(w, cb, name)
+		done, err := callDone(cb)
+		switch {
+		case world.IsStream(b):
+			// a stream call with two healthy nodes stays open; it must not have been told of any failure
+			if done && err != nil {
+				fail("C05/foreign-error", classOf(b), "%s: every handler of call t%d succeeded, but the call ended with %v (node 2's handler failed in the EARLIER call t%d)", name, cb.Tok, err, ca.Tok)
+			}
+		case !done:
+			fail("C05/call-stuck", classOf(b), "%s: call t%d has not returned although every node answered", name, cb.Tok)
+		case err != nil:
+			fail("C05/foreign-error", classOf(b), "%s: every handler of call t%d succeeded, but the call failed with %v (node 2's handler failed in the EARLIER call t%d)", name, cb.Tok, err, ca.Tok)
+		}
+		mc.Outcome("b-done=%v err=%v", done, err != nil)
+	}
+}
+
 func xtalkInstances(tier string) []Instance {
 	var out []Instance
+	for _, a := range []string{"GRPCCall", "QuorumCall", "QuorumCallAsync", "Correctable", "CorrectableStream"} {
+		for _, b := range []string{"GRPCCall", "QuorumCall", "QuorumCallAsync", "Correctable", "CorrectableStream"} {
+			out = append(out, Instance{Name: fmt.Sprintf("error-then-success/%s>%s", a, b), Bound: 1, Root: errThenOkScenario(a, b)})
+		}
+	}
 	for _, a := range []string{"QuorumCall", "QuorumCallAsync", "Correctable", "Multicast", "QuorumCallCombo"} {
 		for _, b := range []string{"QuorumCall", "QuorumCallAsync", "Correctable", "GRPCCall"} {
 			for _, buf := range []uint{1, 2} {
@@ -428,7 +484,7 @@ func xtalkInstances(tier string) []Instance {
 
 func init() {
 	register(&Check{ID: "C05",
-		Rule:        "two (three in thorough) concurrent client threads on one manager with 3 nodes: every ordered pair over {quorum call, async, correctable, correctable stream, RPC, multicast} on equal or overlapping configurations ({1,2} vs {1,2} / {2,3}), with and without a cancel event for the first call, plus back-to-back calls of one thread concurrent with another thread (thresholds 1 and 2); every handler releases early and is gated individually, and the script opens the gates and fires the cancel in every order at quiescent points (so replies arrive after their call returned or was cancelled); all schedules within the deviation bound; plus the fault families of C07 in which a connection fault strikes one node of two (also while the request is still queued): a node's error is delivered at most once as well; plus a stalled-sender family (call A completes on node 1 while its request to node 2 waits in the send buffer behind a stalled sender, the same goroutine then issues call B needing both nodes, then the server reads again; send buffer {1,2}); oracle: every reply shown to a quorum function or returned carries the observer's own call token and the node id it is filed under, at most one reply per node and call, nothing observed after return, one message id per call; an outcome is (instance, event order)",
+		Rule:        "two (three in thorough) concurrent client threads on one manager with 3 nodes: every ordered pair over {quorum call, async, correctable, correctable stream, RPC, multicast} on equal or overlapping configurations ({1,2} vs {1,2} / {2,3}), with and without a cancel event for the first call, plus back-to-back calls of one thread concurrent with another thread (thresholds 1 and 2); every handler releases early and is gated individually, and the script opens the gates and fires the cancel in every order at quiescent points (so replies arrive after their call returned or was cancelled); all schedules within the deviation bound; plus the fault families of C07 in which a connection fault strikes one node of two (also while the request is still queued): a node's error is delivered at most once as well; plus sequences 'a call in which one node's handler fails, then a call in which every handler succeeds' (5 x 5 call kinds): the second call sees no error; plus a stalled-sender family (call A completes on node 1 while its request to node 2 waits in the send buffer behind a stalled sender, the same goroutine then issues call B needing both nodes, then the server reads again; send buffer {1,2}); oracle: every reply shown to a quorum function or returned carries the observer's own call token and the node id it is filed under, at most one reply per node and call, nothing observed after return, one message id per call; an outcome is (instance, event order)",
 		Gen:         xtalkInstances,
 		Assumptions: []string{"puppet servers stamp every reply with (call token, node, sequence); transport is the fakegrpc model"},
 	})
